@@ -223,7 +223,16 @@ impl Check for C13 {
         let mut next = 0usize;
         let mut h = 0u64;
         let mut bits = Bits::default();
+        // work budget in raw clock edges: one tick in Assembly mode can cost 4 096 of them (undefined
+        // opcode); a long run must not turn into minutes of wall-clock time (the verdict of a check
+        // never depends on a clock, so the run is cut by work done, not by time)
+        let mut work: u64 = 0;
         for t in 0..scn.max_edges {
+            work += if matches!(m.step_mode(), emulator_2a_lib::machine::StepMode::Assembly) { 4096 } else { 1 };
+            if work > 12_000_000 {
+                ctx.cov.probe("work-budget-exhausted(run cut short)");
+                break;
+            }
             while next < scn.events.len() && scn.events[next].0 <= t {
                 let s = &scn.events[next].1;
                 next += 1;
